@@ -750,6 +750,34 @@ def ledger_queries(conn, rng, per_overload):
         for text, node, _ in paths:
             qs.append((f'column:{tname_}.{text.split("[")[0]}', f'SELECT {text} AS r FROM #{tname_}', select_ast(node, tname_)))
         qs.append((f'wildcard:{tname_}', f'SELECT * FROM #{tname_}', select_ast(bast.Asterisk(), tname_)))
+        # FROM-subqueries over this table (fix-D): the columns of the subquery table have to announce and deliver what the
+        # inner targets announce and deliver, whatever their order; read through `*`, reversed, one by one through a second
+        # level, and grouped (aggregated inner query)
+        cols_ = list(table.columns)
+        for _ in range(2):
+            pick = rng.sample(cols_, min(len(cols_), rng.randint(2, 4)))
+            if len(pick) < 2:
+                break
+            inner = bast.Select([bast.Target(bast.Column(c), None) for c in pick], bast.Table(tname_), None, None, None, None, None, None)
+            isql = f'SELECT {", ".join(pick)} FROM #{tname_}'
+            sub = lambda targets, src: bast.Select(targets, src, None, None, None, None, None, None)  # noqa: E731
+            qs.append((f'subquery:{tname_}', f'SELECT * FROM ({isql})', sub(bast.Asterisk(), inner)))
+            rev = pick[::-1]
+            qs.append((f'subquery:{tname_}', f'SELECT {", ".join(rev)} FROM ({isql})',
+                       sub([bast.Target(bast.Column(c), None) for c in rev], inner)))
+            mid = sub([bast.Target(bast.Column(c), None) for c in pick[:2]], inner)
+            qs.append((f'subquery:{tname_}', f'SELECT {pick[0]} AS r FROM (SELECT {", ".join(pick[:2])} FROM ({isql}))',
+                       sub([bast.Target(bast.Column(pick[0]), 'r')], mid)))
+        keys = [c for c in cols_ if table.columns[c].dtype in (str, date, int, bool, D)]
+        if keys and len(cols_) >= 2:
+            k = rng.choice(keys)
+            v = rng.choice([c for c in cols_ if c != k])
+            fn = rng.choice(['first', 'last'])
+            ginner = bast.Select([bast.Target(bast.Column(k), 'g'), bast.Target(bast.Function(fn, [bast.Column(v)]), 'v'),
+                                  bast.Target(bast.Function('count', [bast.Asterisk()]), 'n')],
+                                 bast.Table(tname_), None, bast.GroupBy([1], None), None, None, None, None)
+            qs.append((f'subquery:{tname_}', f'SELECT n, v, g FROM (SELECT {k} AS g, {fn}({v}) AS v, count(*) AS n FROM #{tname_} GROUP BY 1)',
+                       bast.Select([bast.Target(bast.Column(c), None) for c in ('n', 'v', 'g')], ginner, None, None, None, None, None, None)))
         # untyped (object) sources of this table: metadata subscripts and the metadata functions ...
         objsrc = [(text, node) for text, node, dt in paths if dt is object and '[' in text
                   and any(f"['{k}']" in text for k in ('budget', 'limit', 'when', 'trip', 'flagged', 'empty', 'nokey'))]
